@@ -179,6 +179,11 @@ pub enum RunKind {
     /// the parked calls then finish in a random order and everybody repeats its formula. Fixed-size tables of
     /// per-call resources (slots, leases, permits) overflow when more calls are in flight than they have entries.
     Crowd,
+    /// "restart": two or three process incarnations one after the other on the same private disk. The first works
+    /// through a set of a few hundred calls of one evaluator on several threads (and may be killed in the middle);
+    /// the later ones - fresh memory, the files the earlier ones left - evaluate the same calls again. State the
+    /// library keeps in files is state between calls too.
+    Restart,
 }
 
 /// the stall-and-wrap run over a filler pool (the leading Ok entries are distinct calls of one evaluator, short and
@@ -238,6 +243,8 @@ fn stall_wrap_spec(pool: &Pool, seed: u64, base: usize) -> RunSpec {
         clock_jumps: vec![vec![], vec![]],
         stack_depths: vec![vec![], vec![]],
         cpu_limits: vec![0, 0],
+        kill_step: 0,
+        next: None,
     }
 }
 
@@ -325,7 +332,85 @@ fn crowd_spec(pool: &Pool, ix: &PoolIndex, seed: u64) -> RunSpec {
         clock_jumps: vec![vec![]; n],
         stack_depths: vec![vec![]; n],
         cpu_limits: vec![0; n],
+        kill_step: 0,
+        next: None,
     }
+}
+
+/// the restart run (see RunKind::Restart): a chain of specs, one per process incarnation
+fn restart_spec(pool: &Pool, ix: &PoolIndex, seed: u64, allow_intra: bool) -> RunSpec {
+    let mut r = Rng::new(mix(seed, 0x7265_7374));
+    let ev: Ev = if !ix.hint_evs.is_empty() && r.chance(0.8) { *r.pick(&ix.hint_evs) } else { *r.pick(&ALL_EV) };
+    // the set of calls: mostly from the function buckets the change touches, else any calls of the evaluator
+    let size = [40usize, 150, 400, 800][r.below(4)];
+    let hb: Vec<usize> = ix.hint_buckets.iter().copied().filter(|b| ix.fn_buckets[*b].0 == ev as u8).collect();
+    let mut set: Vec<u32> = Vec::with_capacity(size);
+    let mut guard = 0;
+    while set.len() < size && guard < size * 30 {
+        guard += 1;
+        let e = if !hb.is_empty() && r.chance(0.8) {
+            let b = *r.pick(&hb);
+            *r.pick(&ix.fn_buckets[b].2)
+        } else if !ix.ok_by_ev[ev as usize].is_empty() {
+            *r.pick(&ix.ok_by_ev[ev as usize])
+        } else {
+            *r.pick(&ix.ok)
+        };
+        let en = &pool.entries[e as usize];
+        if en.ticks < 200_000 && !matches!(en.oracle, Outcome::Panic(_)) && !set.contains(&e) {
+            set.push(e);
+        }
+    }
+    if set.is_empty() {
+        set.push(ix.ok[0]);
+    }
+    let phases = r.range(2, 3);
+    let mut specs: Vec<RunSpec> = Vec::new();
+    for ph in 0..phases {
+        let nthreads = if ph == 0 { [2usize, 3, 4, 8, 8][r.below(5)] } else { [1usize, 1, 2][r.below(3)] };
+        let mut order = set.clone();
+        r.shuffle(&mut order);
+        let mut clients: Vec<Vec<u32>> = vec![Vec::new(); nthreads];
+        if ph == 0 {
+            // every thread works through its share; a few calls are made by two threads
+            for (i, e) in order.iter().enumerate() {
+                clients[i % nthreads].push(*e);
+                if r.chance(0.1) {
+                    clients[r.below(nthreads)].push(*e);
+                }
+            }
+        } else {
+            for (i, e) in order.iter().enumerate() {
+                clients[i % nthreads].push(*e);
+            }
+        }
+        let policy = if ph == 0 { pick_policy(&mut r, nthreads, RunKind::Short, allow_intra) } else if nthreads == 1 { Policy::Serial } else { Policy::CallAtomic { q: 0.5 } };
+        let est_steps: u64 = clients.iter().map(|c| c.iter().map(|e| pool.entries[*e as usize].ticks as u64 + 1).sum::<u64>() + 1).sum();
+        // half of the non-final incarnations are killed somewhere in the second half of their work
+        let kill_step = if ph + 1 < phases && r.chance(0.5) { est_steps / 2 + r.below((est_steps / 2).max(1) as usize) as u64 } else { 0 };
+        specs.push(RunSpec {
+            seed: mix(seed, ph as u64),
+            clients,
+            churn: vec![vec![]; nthreads],
+            policy,
+            start: 0,
+            switches: Vec::new(),
+            est_steps,
+            want_trace: true,
+            faults_enabled: vec!["restart"],
+            clock_jumps: vec![vec![]; nthreads],
+            stack_depths: vec![vec![]; nthreads],
+            cpu_limits: vec![0; nthreads],
+            kill_step,
+            next: None,
+        });
+    }
+    let mut chain: Option<RunSpec> = None;
+    while let Some(mut sp) = specs.pop() {
+        sp.next = chain.take().map(Box::new);
+        chain = Some(sp);
+    }
+    chain.unwrap()
 }
 
 pub const FAULT_NAMES: [&str; 10] = [
@@ -375,12 +460,15 @@ pub fn make_spec(pool: &Pool, ix: &PoolIndex, seed: u64, kind: RunKind, allow_in
     if kind == RunKind::Crowd {
         return crowd_spec(pool, ix, seed);
     }
+    if kind == RunKind::Restart {
+        return restart_spec(pool, ix, seed, allow_intra);
+    }
     let mut r = Rng::new(mix(seed, 0x776f_726b));
     let nthreads = match kind {
         RunKind::Short => [1usize, 2, 2, 2, 2, 3, 3, 3, 4, 4][r.below(10)],
         RunKind::Wide => 16,
         RunKind::Long { .. } => [1usize, 1, 2, 4, 16][r.below(5)],
-        RunKind::StallWrap { .. } | RunKind::Crowd => 2,
+        RunKind::StallWrap { .. } | RunKind::Crowd | RunKind::Restart => 2,
     };
     // swarm: enabled fault kinds for this run
     let f1 = r.chance(0.6) && !ix.err.is_empty();
@@ -533,7 +621,7 @@ pub fn make_spec(pool: &Pool, ix: &PoolIndex, seed: u64, kind: RunKind, allow_in
             }
             RunKind::Wide => r.range(1, 6),
             RunKind::Long { .. } => (total_calls_long / nthreads).max(1),
-            RunKind::StallWrap { .. } | RunKind::Crowd => 1,
+            RunKind::StallWrap { .. } | RunKind::Crowd | RunKind::Restart => 1,
         };
         let mut calls: Vec<u32> = Vec::with_capacity(ncalls);
         while calls.len() < ncalls {
@@ -731,5 +819,7 @@ pub fn make_spec(pool: &Pool, ix: &PoolIndex, seed: u64, kind: RunKind, allow_in
         clock_jumps: jumps,
         stack_depths: depths,
         cpu_limits: cpus,
+        kill_step: 0,
+        next: None,
     }
 }
